@@ -6,6 +6,13 @@ use std::cell::{Cell, RefCell};
 thread_local! {
     static EVENTS: RefCell<Vec<String>> = RefCell::new(Vec::new());
     static RECORDING: Cell<bool> = Cell::new(false);
+    static LIMIT: Cell<usize> = Cell::new(usize::MAX);
+}
+
+/// Bounds the length of the log on this thread; further events are dropped
+/// (deep enumerations emit hundreds of millions of them).
+pub fn set_limit(n: usize) {
+    LIMIT.with(|l| l.set(n));
 }
 
 /// Switches recording on or off for this thread (off by default, so that
@@ -18,7 +25,12 @@ pub fn record(on: bool) {
 /// recording is on; the text is only built in that case.
 pub fn emit_with<F: FnOnce() -> String>(event: F) {
     if RECORDING.with(|r| r.get()) {
-        EVENTS.with(|e| e.borrow_mut().push(event()));
+        EVENTS.with(|e| {
+            let mut e = e.borrow_mut();
+            if e.len() < LIMIT.with(|l| l.get()) {
+                e.push(event());
+            }
+        });
     }
 }
 
